@@ -2,6 +2,7 @@
 (own session, SIGKILL to the whole group on watchdog), merging the per-process event logs,
 sampling /proc for the structural deadlock verdict."""
 
+import collections
 import glob
 import json
 import os
@@ -160,10 +161,17 @@ def diagnose(p, logdir):
     sf = os.path.join(logdir, f"stacks.{p.pid}.txt")
     if os.path.exists(sf):
         stacks = open(sf).read()[-3000:]
-    pids = sorted({pid for pid, _ in s2})
-    cpu_used = sum(s2[k]["cpu"] - s1[k]["cpu"] for k in s2 if k in s1)
-    blocked = all(v["state"] in ("S", "D") for v in s2.values())
-    same_threads = set(s1) == set(s2)
+    # zombies (killed, not yet reaped) are dead: they can wake nobody and need no progress
+    live2 = {k: v for k, v in s2.items() if v["state"] not in ("Z", "X")}
+    live1 = {k: v for k, v in s1.items() if v["state"] not in ("Z", "X")}
+    pids = sorted({pid for pid, _ in live2})
+    cpu_by_pid = collections.Counter()
+    for k in live2:
+        if k in live1:
+            cpu_by_pid[k[0]] += live2[k]["cpu"] - live1[k]["cpu"]
+    cpu_used = sum(cpu_by_pid.values())
+    blocked = all(v["state"] in ("S", "D") for v in live2.values())
+    same_threads = set(live1) == set(live2)
     parent_main = s2.get((p.pid, p.pid))
     parent_sc = parent_main["syscall"] if parent_main else None
     parent_fd = None
@@ -184,16 +192,24 @@ def diagnose(p, logdir):
                     except (OSError, ValueError, IndexError):
                         pass
     survivors = [pid for pid in pids if pid != p.pid]
-    surv_futex = all(any(v["syscall"][0] == "202" for (pp, _t), v in s2.items() if pp == pid) for pid in survivors) if survivors else None
+    # every thread of every survivor waits in futex (syscall 202) and used no CPU
+    surv_futex = bool(survivors) and all(
+        all(v["syscall"][0] == "202" for (pp, _t), v in live2.items() if pp == pid) and cpu_by_pid[pid] == 0
+        for pid in survivors)
     proven = False
     why = "not decided"
-    if blocked and cpu_used == 0 and same_threads:
-        if parent_sc and parent_sc[0] == "0" and pipe_writers is not None and set(pipe_writers) <= {p.pid}:
+    mechanism = None
+    if blocked and same_threads:
+        if cpu_used == 0 and parent_sc and parent_sc[0] == "0" and pipe_writers is not None and set(pipe_writers) <= {p.pid}:
             proven = True
-            why = "parent blocked in read() on the queue pipe whose only remaining writer is the parent itself; no CPU consumed"
-        elif survivors and surv_futex:
+            mechanism = "partial_message_in_pipe"
+            why = ("parent blocked in read() on the queue pipe whose only remaining writer is the parent itself "
+                   "(the worker that was writing the message is dead); no CPU consumed")
+        elif surv_futex and cpu_by_pid[p.pid] <= 3:
             proven = True
-            why = "surviving workers blocked in futex (queue writer lock held by a dead process), parent only polls; no progress possible"
-    return {"proven_deadlock": proven, "why": why, "cpu_ticks_between_samples": cpu_used, "all_blocked": blocked,
+            mechanism = "writer_lock_held_by_dead_process"
+            why = ("every thread of every surviving worker waits in futex on the queue's writer lock whose holder is dead, "
+                   "so they never exit; the parent only polls the queue and the liveness check; no progress possible")
+    return {"proven_deadlock": proven, "why": why, "mechanism": mechanism, "cpu_ticks_between_samples": cpu_used, "all_blocked": blocked,
             "parent_syscall": parent_sc, "parent_fd": parent_fd, "pipe_writers": pipe_writers, "survivors": survivors,
             "threads": {f"{k[0]}/{k[1]}": v for k, v in list(s2.items())[:12]}, "stacks": stacks[-1500:]}
